@@ -65,6 +65,7 @@ func genMotif(rt *rapid.T, w *World, motif int) {
 		f := form("m.form")
 		lines := draw(rt, "m.lines", 3, 3, 4)
 		shFixed := chance(rt, "m.shfixed", 4, 5)
+		shDiffer := chance(rt, "m.shdiffer", 2, 3) // the two parents install different versions of the shared package
 		shV := []Ver{ver("1.0.0"), ver("1.1.0")}
 		if shFixed {
 			shV = append(shV, ver("2.0.0"))
@@ -87,8 +88,11 @@ func genMotif(rt *rapid.T, w *World, motif int) {
 						sv = "2.0.0"
 					}
 					r := req(f, sv)
-					if i == late && chance(rt, l+".pin", 1, 3) {
-						r = draw(rt, l+".pinat", "1.0.0", "1.1.0") // the two parents may install different versions
+					if i == late && shDiffer {
+						r = "1.0.0"
+						if parent == pb {
+							r = "1.1.0"
+						}
 					}
 					v.Deps = append(v.Deps, Dep{Name: sh, Req: r})
 				}
@@ -109,7 +113,7 @@ func genMotif(rt *rapid.T, w *World, motif int) {
 			shAff = shAff[:1]
 		}
 		w.Vulns = append(w.Vulns, affect("V3", sh, shAff...))
-		if len(shAff) == 2 && chance(rt, "m.shpersev", 1, 3) {
+		if len(shAff) == 2 && chance(rt, "m.shpersev", 2, 3) {
 			splitSeverity(&w.Vulns[2], 1, chance(rt, "m.shlowfirst", 1, 2))
 		}
 		if chance(rt, "m.shrange", 2, 3) {
